@@ -279,6 +279,7 @@ def run(ctx):
     # opcode's own opcode set, otherwise an opcode without a rule is compiled with the rule of another opcode (shared with C20 D2)
     import importlib as _il15
     _il15.import_module("rules.c20").d2(db, rep, "D15-RULE-OF-OWN-SET")
+    d16_spilled_pointer_row_step(db, rep)
     # D13: "no failure of the operating system to provide ... an executable mapping crashes the process": the allocator's failure
     # exits release the global mutex (rule shared with C08 D2)
     import importlib as _il13
@@ -621,3 +622,32 @@ def compiler_var_scans_complete(db, rep, rule):
     if n < 8:
         raise AnalysisBroken("only %d effectful scans of compiler->vars[] found" % n)
     return n
+
+
+def d16_spilled_pointer_row_step(db, rep, rule="D16-SPILLED-POINTER-ROW-STEP"):
+    """Register exhaustion, x86: an array pointer that got no general register lives in ex->arrays[i] and the inner loop advances
+    it THERE (orc_x86_emit_loop, the arm without ptr_register), while a pointer with a register is advanced in the register and
+    ex->arrays[i] keeps the start of the row.  The row step of 2-D programs (orc_x86_add_strides: arrays[i] += stride) is right
+    only for the second kind; for a pointer kept in memory it adds the stride to a pointer that already stands at the end of the
+    row.  As long as the inner loop has that memory arm, the row step must tell the two cases apart (today: refuse the
+    program, which then runs emulated) - a row step that does not look at ptr_register at all steps spilled pointers wrongly and
+    every row after the first differs from emulation."""
+    tu = db.tu("orcprogram-x86")
+    lp = tu.fn.get("orc_x86_emit_loop")
+    st = tu.fn.get("orc_x86_add_strides")
+    if lp is None or st is None:
+        raise AnalysisBroken("orc_x86_emit_loop / orc_x86_add_strides not found")
+    rep.saw(st)
+    mem_arm = [c for c in lp.calls() if c.name and "memoffset" in c.name and any("arrays" in (z.get("opath") or "") for x in c.args() for z in x.walk() if z.k == "OffsetOfExpr")]
+    if not mem_arm:
+        raise AnalysisBroken("orc_x86_emit_loop: the arm that advances ex->arrays[k] in memory was not found (premise of the rule)")
+    row = [c for c in st.calls() if c.name and "memoffset" in c.name and any("arrays" in (z.get("opath") or "") for x in c.args() for z in x.walk() if z.k == "OffsetOfExpr")]
+    if not row:
+        raise AnalysisBroken("orc_x86_add_strides: the add to ex->arrays[i] was not found")
+    tests = [b for b in st.blocks.values() if b.cond is not None and "ptr_register" in unparse(b.cond)]
+    rep.check(bool(tests), rule, where(st), "orc_x86_add_strides", "the row step distinguishes pointers kept in memory from pointers kept in a register",
+              "orc_x86_add_strides adds the stride to ex->arrays[i] for every array and never looks at vars[i].ptr_register, while orc_x86_emit_loop "
+              "advances a pointer without register in ex->arrays[i] itself (line %s): for such a pointer the stride is added to the END of the row - a 2-D "
+              "program that runs out of general registers is compiled instead of emulated and every row after the first is wrong" % mem_arm[0].line,
+              line=row[0].line)
+    return 1
